@@ -204,7 +204,7 @@ func short(res *vlib.Result, pts []int) {
 	sigs := map[uint64]struct{}{}
 	var totalOps, withOverlap int64
 	var hists [][]Op
-	for h := 0; h < n; h++ {
+	for h := 0; h < n && !res.TimeUp(); h++ {
 		r := vlib.NewRand(res.Seed*7919 + uint64(h))
 		q := queue.NewLockFreeQueue()
 		K := r.Range(2, 3)
